@@ -1,9 +1,14 @@
 package pool
 
 import (
+	"errors"
 	"fmt"
 	"strings"
 )
+
+// ErrUpdateInProgress is returned when a node sends an update while its
+// previous update is still being processed.
+var ErrUpdateInProgress = errors.New("update already in progress for this node")
 
 // NoHostNodesError is returned when the pool does not have any hosts available.
 type NoHostNodesError struct {
